@@ -33,6 +33,7 @@ type vHist struct {
 	// after a model-only mismatch the model is no longer consulted for this history; the
 	// specification still is (the failing input may only show a few operations later)
 	modelOff bool
+	firstObs map[string]string // version counter -> first observation by id
 }
 
 func newVHist(c *Ctx, prop string, opts ...gofakes3.Option) (*vHist, *impl.Instance) {
@@ -58,7 +59,7 @@ func vSpecProj(s string) string {
 	switch f[0] {
 	case "obj", "hobj":
 		return f[0] + " " + f[1]
-	case "stored", "deleted", "multideleted":
+	case "stored", "deleted", "multideleted", "copied":
 		return "ok"
 	case "delete-marker":
 		return "delete-marker"
@@ -140,6 +141,41 @@ func (h *vHist) put(key string, body []byte) {
 		if v != "-" {
 			h.vers = append(h.vers, verRef{key: key, counter: v, raw: h.rawOf(v), bornEnabled: true})
 			h.bornAny[key] = true
+		}
+	}
+}
+
+// putMd: an upload that carries headers (a user header and an ACL header, which the server
+// stores with the version like any other X-Amz- header)
+func (h *vHist) putMd(key string, body []byte, n int) {
+	h.noteWrite(key)
+	md := map[string]string{"X-Amz-Meta-V": fmt.Sprint(n), "X-Amz-Acl": "public-read"}
+	l, o := h.r.Put(h.bucket, key, md, body)
+	h.fresh(o, "put")
+	h.judge(l, o, "put", key)
+	if strings.HasPrefix(o, "stored ") && strings.Contains(o, "vid=") {
+		v := o[strings.Index(o, "vid=")+4:]
+		if v != "-" {
+			h.vers = append(h.vers, verRef{key: key, counter: v, raw: h.rawOf(v), bornEnabled: true})
+			h.bornAny[key] = true
+		}
+	}
+}
+
+// copy src -> dst inside the bucket; the version it creates is found through the listing
+func (h *vHist) copy(src, dst string, n int) {
+	h.noteWrite(dst)
+	l, o := h.r.Copy(h.bucket, src, h.bucket, dst, map[string]string{"X-Amz-Meta-C": fmt.Sprint(n)})
+	h.judge(l, o, "copy", dst)
+	_, lo := h.r.ListVersions(VerListReq{Bucket: h.bucket, ClampedMaxKeys: 1000})
+	known := map[string]bool{}
+	for _, v := range h.vers {
+		known[v.counter] = true
+	}
+	for _, e := range lo.Entries {
+		if e.Vid != "-" && !known[e.Vid] {
+			h.vers = append(h.vers, verRef{key: e.Key, counter: e.Vid, raw: e.RawVid, marker: e.Marker, bornEnabled: true})
+			h.bornAny[e.Key] = true
 		}
 	}
 }
@@ -229,6 +265,19 @@ func (h *vHist) readBack(keys []string) {
 	for _, v := range h.vers {
 		l, o := h.r.GetV(h.bucket, v.key, v.raw, v.counter)
 		h.judge(l, o, "getVersion", v.key)
+		// the statement itself: a version read by id never changes (bytes, ETag, metadata) while it exists
+		if strings.HasPrefix(o, "obj ") {
+			if h.firstObs == nil {
+				h.firstObs = map[string]string{}
+			}
+			if first, seen := h.firstObs[v.counter]; !seen {
+				h.firstObs[v.counter] = o
+			} else if first != o && !h.dead {
+				h.c.mismatch(Mismatch{Kind: "spec", Backend: "mem", Case: append(append([]string{}, h.r.Lines...), l), Impl: trunc(o, 300),
+					Spec: "version " + v.counter + " of " + v.key + " reads as when it was first read: " + trunc(first, 300), Finger: "c05:version-changed"})
+				h.dead = true
+			}
+		}
 		l, o = h.r.HeadV(h.bucket, v.key, v.raw, v.counter)
 		h.judge(l, o, "headVersion", v.key)
 	}
@@ -286,6 +335,12 @@ func (h *vHist) apply(op string, n int) {
 		h.setver("S")
 	case "read":
 		h.readBack([]string{k, k2})
+	case "putKmeta":
+		h.putMd(k, []byte(fmt.Sprintf("mbody-%d", n)), n)
+	case "copyK":
+		h.copy(k, k2, n)
+	case "copyKself":
+		h.copy(k, k, n)
 	}
 }
 
@@ -347,6 +402,9 @@ func runC05(c *Ctx) {
 			op := c05Alphabet[c.Rng.Intn(len(c05Alphabet))]
 			if c.Rng.Intn(4) == 0 {
 				op = "putK"
+			}
+			if c.Rng.Intn(6) == 0 {
+				op = []string{"putKmeta", "putKmeta", "copyK", "copyK", "copyKself"}[c.Rng.Intn(5)]
 			}
 			h.apply(op, j)
 			ops = append(ops, op)
